@@ -15,8 +15,9 @@ def assert_env():
     import openaerostruct
 
     f = os.path.realpath(openaerostruct.__file__)
-    if not f.startswith("/repo/"):
-        print("INTERNAL: openaerostruct imported from %s, not from /repo (PYTHONPATH must start with /repo)" % f)
+    want = os.path.realpath(os.environ.get("OASMC_REPO", "/repo")) + "/"
+    if not f.startswith(want):
+        print("INTERNAL: openaerostruct imported from %s, not from %s (PYTHONPATH must start with it)" % (f, want))
         sys.exit(2)
 
 
@@ -87,6 +88,9 @@ def main(argv=None):
 
     if a.replay:
         rec = json.load(open(a.replay))
+        # a record may carry the states the same worker process had executed before (hidden process-level state)
+        for ps in rec.get("prefix", []):
+            engine.run_one(check, ps)
         r = engine.run_one(check, rec["state"])
         if "error" in r:
             print("INTERNAL: harness error during replay\n" + r["error"])
@@ -178,6 +182,20 @@ def main(argv=None):
                 pr = subprocess.run([os.path.join(ROOT, "check"), pid, "--replay", path], capture_output=True, text=True)
                 ok = pr.returncode == 1
                 if not ok:
+                    # not reproducible from the state alone: retry with everything the same worker process had executed
+                    # before it.  If THAT reproduces, the result depends on hidden process-level state (a module-level or
+                    # class-level cache): a genuine violation, reported with the prefix in the replay record.
+                    prefix = engine.worker_prefix(states, results, g["first"])
+                    if prefix:
+                        rec["prefix"] = prefix
+                        rec["note"] = "reproduces only after the listed prefix of other states in the same process"
+                        with open(path, "w") as fh:
+                            fh.write(engine.jdump(rec))
+                        pr2 = subprocess.run([os.path.join(ROOT, "check"), pid, "--replay", path], capture_output=True, text=True)
+                        ok = pr2.returncode == 1
+                        if ok:
+                            print("  (depends on process history: reproduced with a prefix of %d earlier state(s) of the same worker)" % len(prefix))
+                if not ok:
                     nondeterministic = True
                     print("INTERNAL: violation did not reproduce from its replay record %s (exit %d)\n%s" % (path, pr.returncode, (pr.stdout + pr.stderr)[-1200:]))
             if ok:
@@ -229,8 +247,12 @@ def main(argv=None):
         wall_s=round(time.time() - t0, 2),
         violations=len(new),
     )
-    os.makedirs(os.path.join(ROOT, "evidence"), exist_ok=True)
-    evp = os.path.join(ROOT, "evidence", "%s.json" % pid)
+    evdir = os.path.join(ROOT, "evidence")
+    if os.path.realpath(os.environ.get("OASMC_REPO", "/repo")) != "/repo":
+        # scratch-worktree runs (seeded changes) never touch the committed evidence
+        evdir = os.path.join(os.environ.get("TMPDIR", "/tmp"), "oasmc_evidence_alt")
+    os.makedirs(evdir, exist_ok=True)
+    evp = os.path.join(evdir, "%s.json" % pid)
     with open(evp, "w") as fh:
         json.dump(ev, fh, indent=1, default=engine._js)
     if not validate_evidence(evp) and exit_code == 0:
